@@ -70,9 +70,17 @@ def run(ctx):
         tr2 = os.path.join(ctx.dir, 'stress_%d.ndjson' % sd)
         vlib.run_harness(['id', 'stress', 'out=' + tr2, 'seed=%d' % sd, 'rounds=%d' % (3 if q else 8), 'allocs=%d' % (250 if q else 500)])
         ctx.monitor('id', 'Mon_IdAlloc', 'Mon_IdAlloc.cfg', tr2, 'stress_%d' % sd, classify)
+        # every id a running server hands out (AllocID, AskSplit, AskBatchSplit: region and peer ids), concurrent callers, leader resignations
+        tr3 = os.path.join(ctx.dir, 'rpcs_%d.ndjson' % sd)
+        vlib.run_harness(['id', 'rpcs', 'out=' + tr3, 'seed=%d' % sd, 'rounds=%d' % (2 if q else 5), 'calls=%d' % (60 if q else 150)], timeout=1800)
+        ctx.monitor('id', 'Mon_IdAlloc', 'Mon_IdAlloc.cfg', tr3, 'rpcs_%d' % sd, classify)
+        ids = [e for e in vlib.read_ndjson(tr3) if e.get('ev') == 'A']
+        ctx.extra['ids_handed_out_by_rpcs'] = ctx.extra.get('ids_handed_out_by_rpcs', 0) + sum(1 for e in ids if not e['err'])
+        ctx.extra['rpcs_refused_while_not_leader'] = ctx.extra.get('rpcs_refused_while_not_leader', 0) + sum(1 for e in ids if e['err'])
     return ctx.finish(rule='exhaustive TLC of IdAlloc.tla (3 instances, Step 2); TLC -simulate behaviours of the same module with '
                            'Step=1000 replayed on real allocators with the etcd transaction gate, state compared per step; '
-                           'free-running concurrent allocators with leader switches; all recordings validated by Mon_IdAlloc.tla')
+                           'free-running concurrent allocators with leader switches; ids handed out by a running server through AllocID / AskSplit / '
+                           'AskBatchSplit (region and peer ids) to concurrent callers across leader resignations; all recordings validated by Mon_IdAlloc.tla')
 
 
 def replay(ctx, path):
